@@ -127,8 +127,11 @@ def main(tier):
         run.ob(okg, "climb|%s" % ev, "C12 premise: generate_ast(level) climbs from exactly the level it is given (so the right factor's extent does not depend on the enclosing operator)", where(m, "::parser::Parser::generate_ast"), whyg)
         # callers of implicit_multiply (call graph)
         edges, _, _ = F.callgraph()
-        callers = sorted(g.short for g in F.fns if f.path in edges.get(g.path, ()) and g.evaluator == ev)
-        allowed = {"parse_number", "get_enclosed_elements_with_impl_mult", "convert_token_to_node"}
+        role_of = {g_.path: r_ for r_, g_ in m.tb.roles().items()}
+        m.prim(), m.bin(), m.summary("get_enclosed_elements_with_impl_mult")
+        helpers = {p_ for p_ in getattr(m.tb, "_inlined_paths", set()) if "::parser::Parser::" in (F.by_path[p_].key if p_ in F.by_path else "")}
+        callers = sorted(role_of.get(g.path, "(helper)" if g.path in helpers else g.short) for g in F.fns if f.path in edges.get(g.path, ()) and g.evaluator == ev)
+        allowed = {"parse_number", "get_enclosed_elements_with_impl_mult", "convert_token_to_node", "(helper)"}
         run.ob(set(callers) <= allowed, "callers|%s" % ev, "C12 the hook is invoked only at primary level (before control returns to any climbing loop)", f.key, "callers %s" % callers)
     report_issues(run, models, tables={"T_prim", "T_loop", "T_lex"})
     run.floor("evaluators analysed", len(models), 5)
